@@ -64,10 +64,18 @@ pub fn run_program(user_text: &str, cycles: u32, mem: &[(u64, u8)], extra_fields
         _ => None,
     };
     let contents = FileContents::new_from_data(hk::y86_preamble(), user_text, "t.hcl");
+    let actions_out = std::cell::RefCell::new(String::new());
     let result = catch_unwind(AssertUnwindSafe(|| {
         match parse_y86_hcl(&contents) {
             Err(e) => (format!("rej {}", diag_string(&hk::error_summary(&e))), false),
             Ok(program) => {
+                // the schedule the real code produced, for validation by the model
+                let mut acts = String::from("(iactions");
+                for a in program.verif_actions() {
+                    write!(acts, " ({} ({}) ({}))", a.kind, a.writes.clone().unwrap_or_default(), a.reads.join(" ")).unwrap();
+                }
+                acts.push(')');
+                *actions_out.borrow_mut() = acts;
                 let mut rp = RunningProgram::new_y86(program);
                 rp.verif_set_memory(mem);
                 let mut out = String::from("ok");
@@ -95,7 +103,7 @@ pub fn run_program(user_text: &str, cycles: u32, mem: &[(u64, u8)], extra_fields
         let mut memf = String::from("(mem");
         for (a, b) in mem { write!(memf, " ({} {})", a, b).unwrap(); }
         memf.push(')');
-        format!("(prog {} {} (cycles {}) {} {} (stmts {}))", flags_sexp(), cls_sexp(user_text), cycles, memf, extra_fields, s)
+        format!("(prog {} {} (cycles {}) {} {} {} (stmts {}))", flags_sexp(), cls_sexp(user_text), cycles, memf, extra_fields, actions_out.borrow(), s)
     });
     ProgOutcome { request, result, accepted }
 }
